@@ -480,12 +480,8 @@ def run_phase2(ck, drv, corr, misc, sbmisc, values, sw32):
             else:
                 s.expect(r[0] == "E:spsdk", ("str", lit, size), "load_hex_string fails on a literal with a non-SPSDK error", r)
                 fits = val[0] == "ok" and val[1] < 256 ** size
-                if fits:
-                    # the value fits expected_size bytes but is refused: only the known align_to_2n quirk may do that
-                    quirk = size > 2 and size % 4 != 0 and (val[1].bit_length() + 7) // 8 > 2
-                    s.expect(False, ("str", lit, size), "load_hex_string refuses a hex literal whose value fits expected_size bytes", r, val,
-                             finding="C20-loadhex-odd-size" if quirk else None)
-            if good is not None and lit.lower() in (good.hex(), "0x" + good.hex()) and (size <= 2 or size % 4 == 0):
+                s.expect(not fits, ("str", lit, size), "load_hex_string refuses a hex literal whose value fits expected_size bytes", r, val)
+            if good is not None and lit.lower() in (good.hex(), "0x" + good.hex()):
                 s.expect(r == ("ok", good), ("str", lit, size), "load_hex_string does not return the bytes of an exact-size hex literal", r, good)
         for size in (1, 2, 3, 4, 16):
             for b in (b"\x01", b"\x01\x02", bytes(range(1, size + 1)), bytes(size), bytes(size + 1), bytes(range(1, 17))):
@@ -496,7 +492,7 @@ def run_phase2(ck, drv, corr, misc, sbmisc, values, sw32):
                     s.expect(r == ("ok", b), ("bytes", b, size), "load_hex_string(bytes) is not the identity", r)
                 else:
                     s.expect(r[0] == "E:spsdk", ("bytes", b, size), "load_hex_string returns a bytes source of the wrong size unchanged "
-                             "(expected_size is not enforced)", r, finding="C20-loadhex-bytes-size")
+                             "(expected_size is not enforced)", r)
             for v in (1, 255, 256, 65535, 65536, 2 ** 24, 2 ** 32 - 1, 2 ** 32, 2 ** 64, 2 ** 128 - 1, True):
                 r = pyres(misc.load_hex_string, v, size)
                 s.note(("int", v, size))
